@@ -444,6 +444,7 @@ spif_bool_t
 spif_ustr_clear(spif_ustr_t self, spif_char_t c)
 {
     ASSERT_RVAL(!SPIF_USTR_ISNULL(self), FALSE);
+    REQUIRE_RVAL(self->s != (spif_charptr_t) NULL, TRUE);
     memset(self->s, c, self->size);
     self->s[self->len] = 0;
     return TRUE;
@@ -475,6 +476,7 @@ spif_ustr_downcase(spif_ustr_t self)
     spif_charptr_t tmp;
 
     ASSERT_RVAL(!SPIF_USTR_ISNULL(self), FALSE);
+    REQUIRE_RVAL(self->s != (spif_charptr_t) NULL, TRUE);
     for (tmp = self->s; *tmp; tmp++) {
         *tmp = tolower(*tmp);
     }
@@ -850,6 +852,7 @@ spif_ustr_upcase(spif_ustr_t self)
     spif_charptr_t tmp;
 
     ASSERT_RVAL(!SPIF_USTR_ISNULL(self), FALSE);
+    REQUIRE_RVAL(self->s != (spif_charptr_t) NULL, TRUE);
     for (tmp = self->s; *tmp; tmp++) {
         *tmp = toupper(*tmp);
     }
